@@ -358,9 +358,9 @@ class TraceSet(object):
                 self.xjumpval = np.float64(kwargs['xjumpval'])
             else:
                 self.xjumpval = None
-            self.coeff = np.zeros((self.nTrace, self.ncoeff), dtype=xpos.dtype)
+            self.coeff = np.zeros((self.nTrace, self.ncoeff), dtype=np.result_type(xpos.dtype, np.float32))
             self.outmask = np.zeros(xpos.shape, dtype=bool)
-            self.yfit = np.zeros(xpos.shape, dtype=xpos.dtype)
+            self.yfit = np.zeros(xpos.shape, dtype=np.result_type(xpos.dtype, np.float32))
             for iTrace in range(self.nTrace):
                 xvec = self.xnorm(xpos[iTrace, :], do_jump)
                 iIter = 0
